@@ -49,7 +49,13 @@ def reference(env, pre, deps, ipython=False):
     plus 'unknown_message': bool."""
     pre_names = [MOD2NAME[m] for m in pre if loadable(MOD2NAME[m], deps)]
     if pre_names:
-        return {"kind": "selected", "names": pre_names, "unknown_message": False}
+        # exactly: the first loaded module in the documented order; a derived backend (which loads its
+        # base module too) counts at its own name
+        base_of = {"libsnarkgg": "libsnark", "zkifbellman": "zkinterface", "zkifbulletproofs": "zkinterface"}
+        closure = set(pre_names) | {base_of[n] for n in pre_names if n in base_of}
+        first = [n for n, _ in REGISTRY if n in closure][0]
+        derived = [n for n in pre_names if base_of.get(n) == first]
+        return {"kind": "selected", "names": derived or [first], "unknown_message": False}
     known = dict(REGISTRY)
     if env != UNSET and env in known:
         if loadable(env, deps):
@@ -164,7 +170,12 @@ def points(thorough):
     mods = [m for _, m in REGISTRY]
     pres = [()] + [(m,) for m in mods]
     pairs = [("pysnark.nobackend", "pysnark.snarkjsbackend"), ("pysnark.snarkjsbackend", "pysnark.zkinterface.backend"),
-             ("pysnark.zkinterface.backendbellman", "pysnark.snarkjsbackend"), ("pysnark.qaptools.backend", "pysnark.nobackend")]
+             ("pysnark.zkinterface.backendbellman", "pysnark.snarkjsbackend"), ("pysnark.qaptools.backend", "pysnark.nobackend"),
+             ("pysnark.qaptools.backend", "pysnark.zkinterface.backendbulletproofs"), ("pysnark.libsnark.backendgg", "pysnark.zkinterface.backendbellman"),
+             # (not a configuration: both derived zkinterface modules at once - they set the ONE modulus of their
+             #  shared base module, so no single "module in effect" exists)
+             ("pysnark.libsnark.backendgg", "pysnark.snarkjsbackend"),
+             ("pysnark.nobackend", "pysnark.zkinterface.backendbulletproofs"), ("pysnark.libsnark.backend", "pysnark.zkinterface.backend")]
     for a, b in pairs:
         pres += [(a, b), (b, a)]
     depss = list(itertools.product((True, False), repeat=3))
@@ -205,7 +216,7 @@ def run(ctx):
     ctx.cov["traces_validated_against_impl"] = len(results)
     ctx.cov["exhaustive"] = True
     ctx.cov["rule"] = ("configuration = PYSNARK_BACKEND in {unset, 8 registry names, 'bogus', '', and 7 near misses of known names (substring, case, blanks)} x pre-imported modules in "
-                       "{none, each registry module, 4 pairs in both import orders} x {FlatBuffers, qaptools executables, libsnark "
+                       "{none, each registry module, 9 pairs (same and different packages, base and derived modules) in both import orders} x {FlatBuffers, qaptools executables, libsnark "
                        "extension} each available or not, plus the same with the builtin get_ipython present (interactive session); one fresh interpreter each; states = "
                        "distinct (backend_name, module, exit status)")
     ctx.assumptions += ["libsnark is represented by a stub extension module (only its loadability matters here)",
